@@ -129,7 +129,7 @@ static int spec_update(const char *what, struct cpu *cpu, struct thread **e, int
 	if (ret != 0) R_FAIL("%s: refused although %s is not an oversubscribed physical CPU and every channel write succeeded", what, cpu->name);
 	if (cpu->th_running != urun) R_FAIL("%s: th_running of %s is not the unique running thread (or NULL)", what, cpu->name);
 	if (cpu->th_active != uact) R_FAIL("%s: th_active of %s is not the unique active thread (or NULL)", what, cpu->name);
-	if (r_cs_n < b + 5) { R_FAIL("%s: %d channel writes for %s, specified 5", what, r_cs_n - b, cpu->name); return 0; }
+	if (r_cs_n < b + 5) { R_FAIL("%s: %d channel writes for %s, specified 5", what, r_cs_n > b ? r_cs_n - b : 0, cpu->name); return 0; }
 	struct value want[CPU_CHAN_MAX];
 	want[CPU_CHAN_NRUN] = value_int64(nrun);
 	want[CPU_CHAN_TID] = urun ? value_int64(urun->tid) : value_null();
